@@ -134,6 +134,22 @@ theorem C04_frame_counterexample_tags (db : Db) (form : Nat) (t : RTag) (ht : t.
     formTags { db with tags := db.tags ++ [t] } form = formTags db form ++ [t] := by
   simp [formTags, List.filter_append, ht]
 
+/-- kernel-checked statement (F13): the forms reported for a word are *all* form rows of its entry,
+whoever owns them — a form row written by an unselected extension is reported -/
+theorem C04_frame_counterexample_forms (db : Db) (lexids : List Nat) (w : WordData)
+    (h : w ∈ findEntries db none [] none lexids false true) (f : RForm) (hf : f ∈ db.forms) (he : f.entry = w.rowid) :
+    (⟨f.form, f.id, f.script, f.rowid⟩ : FormData) ∈ w.forms := by
+  unfold findEntries at h
+  simp only [List.mem_filterMap] at h
+  obtain ⟨e, _, hw⟩ := h
+  split at hw
+  · simp at hw
+  · simp at hw; subst hw
+    simp only [List.mem_map]
+    refine ⟨f, ?_, rfl⟩
+    rw [mem_sortBy]
+    simp [hf, he]
+
 /-- … while every owner-filtered contribution of a lexicon outside the scope is invisible:
 examples, counts, definitions of lexicons not in `lexids` never appear -/
 theorem C04_examples_scoped (db : Db) (sense : Nat) (lexids : List Nat) (x : RExample)
